@@ -51,19 +51,22 @@ example (w y : Int) (b : Buf) (fuel : Nat) (hw : 0 < w) : 0 ∈ rowVisits p scr 
   simp [rowVisits, hw]
 
 
-/-- **page_faithful.**  Start from `Init` and perform any history of SetContent / Fill / LockCell / UnlockCell /
+/-- **page_faithful.**  On the tree of either Fill variant (`fz = Tcell.currentFillBlanksZeroWidth` is the tree as it is:
+Fill stores a blank for a rune that has no width, cell.go Fill; `fz = false` the pinned Fill), start from `Init` and perform
+any history of SetContent / Fill (ANY rune, zero-width, control and invalid ones included) / LockCell / UnlockCell /
+LockRegion (screen.go:424 with its re-dirtying of a wide rune left of a really unlocked row, `Tcell.lockRowsG`) /
 Show / Sync / SetSize (any length, any coordinates, sizes, runes, styles).  Rebuild the page grid from the JS calls
 the backend made.  Then every in-range cell that is unlocked and not dirty – in particular every cell the last
 `Show` stopped at (`visited_clean`) – shows exactly the rendering of its logical contents as `GetContent` reports
 them: the text with its combining runes, foreground/background/underline colour through `paletteColor`,
 attribute bits and underline style (`view`).  (Screen style fixed at its initial value; `SetStyle` after a frame
 leaves already drawn default-style cells as they were, see `setStyle_not_retroactive`.) -/
-theorem page_faithful (rw : Rune → Int) (ops : List WOp) (hok : ∀ op ∈ ops, op.ok rw) (x y : Int) :
-    let sp := runW p rw (WS.init, Page.blank) ops
+theorem page_faithful (fz : Bool) (rw : Rune → Int) (ops : List WOp) (hok : ∀ op ∈ ops, op.ok rw) (x y : Int) :
+    let sp := runW p fz rw (WS.init, Page.blank) ops
     sp.1.cells.inRange x y → (sp.1.cells.cells x y).lock = false → sp.1.cells.dirty x y = false →
     sp.2 x y = some (view p sp.1.style sp.1.cells x y) := by
   intro sp hr hl hd
-  obtain ⟨hst, _, g, hg, hpg, hw⟩ := runW_inv p ({} : Style) rw ops _ hok (init_inv p)
+  obtain ⟨hst, _, g, hg, hpg, hw⟩ := runW_inv p ({} : Style) fz rw ops _ hok (init_inv p)
   have hd' : (sp.1.cells.cells x y).isDirty = false := by
     unfold dirty at hd; rw [if_pos hr] at hd; exact hd
   obtain ⟨h1, h2⟩ := (Cell.isDirty_false_iff _ hl).1 hd'
@@ -74,15 +77,15 @@ theorem page_faithful (rw : Rune → Int) (ops : List WOp) (hok : ∀ op ∈ ops
 /-- **shown_cells_faithful.**  After any history followed by `Show`, every in-range unlocked position the draw walk
 stopped at (column 0 of every row, then each position plus the reported width of its rune: every cell not hidden
 behind a wide rune) shows the rendering of its logical contents. -/
-theorem shown_cells_faithful (rw : Rune → Int) (ops : List WOp) (hok : ∀ op ∈ ops, op.ok rw) :
-    let sp0 := runW p rw (WS.init, Page.blank) ops
-    let sp := stepW p rw sp0 .present
+theorem shown_cells_faithful (fz : Bool) (rw : Rune → Int) (ops : List WOp) (hok : ∀ op ∈ ops, op.ok rw) :
+    let sp0 := runW p fz rw (WS.init, Page.blank) ops
+    let sp := stepW p fz rw sp0 .present
     ∀ q ∈ visits p sp0.1.style sp0.1.w sp0.1.h.toNat 0 sp0.1.cells,
       sp.1.cells.inRange q.1 q.2 → (sp.1.cells.cells q.1 q.2).lock = false →
       sp.2 q.1 q.2 = some (view p sp.1.style sp.1.cells q.1 q.2) := by
   intro sp0 sp q hq hr hl
   have hcl : sp.1.cells.dirty q.1 q.2 = false := visited_clean p sp0.1.style sp0.1.w sp0.1.h.toNat 0 sp0.1.cells q hq
-  have hf := page_faithful p rw (ops ++ [.present])
+  have hf := page_faithful p fz rw (ops ++ [.present])
     (by intro op h; rcases List.mem_append.1 h with h | h
         · exact hok op h
         · simp only [List.mem_singleton] at h; subst h; trivial) q.1 q.2
@@ -108,9 +111,22 @@ example :
     let pal : Pal := { palette := [(2^32 + 1, 0xcd0000)], values := [] }
     let ops := [WOp.setSize 3 1, WOp.setContent 1 0 65 [0x301] { fg := 2^32 + 1 }, WOp.present]
     (∀ op ∈ ops, op.ok (fun _ => 1)) ∧
-    (runW pal (fun _ => 1) (WS.init, Page.blank) ops).2 1 0
+    (runW pal currentFillBlanksZeroWidth (fun _ => 1) (WS.init, Page.blank) ops).2 1 0
       = some { text := [65, 0x301], fg := 0xcd0000, bg := 0, attrs := 0, us := 0, uc := 0 } := by
   refine ⟨by intro op h; simp at h; rcases h with h | h | h <;> subst h <;> simp [WOp.ok], by decide⟩
+
+/-- … and with a Fill of a zero-width rune (U+200B) on the tree as it is, followed by a LockRegion / unlock beside a wide
+rune: after `Fill(U+200B); SetContent(0,0,世); Show; LockRegion(1,0,1,1,true); LockRegion(1,0,1,1,false); Show` cell (2,0)
+shows a blank and cell (0,0) the wide rune -/
+example :
+    let pal : Pal := { palette := [], values := [] }
+    let rw : Rune → Int := fun r => if r = 0x200b then 0 else if r = 0x4e16 then 2 else 1
+    let ops := [WOp.setSize 3 1, WOp.fill 0x200b {}, WOp.setContent 0 0 0x4e16 [] {}, WOp.present,
+                WOp.lockRegion 1 0 1 1 true, WOp.lockRegion 1 0 1 1 false, WOp.present]
+    (∀ op ∈ ops, op.ok rw) ∧
+    ((runW pal true rw (WS.init, Page.blank) ops).2 2 0).map (·.text) = some [32] ∧
+    ((runW pal true rw (WS.init, Page.blank) ops).2 0 0).map (·.text) = some [0x4e16] := by
+  refine ⟨by intro op h; simp at h; rcases h with h | h | h | h | h | h | h <;> subst h <;> simp [WOp.ok], by decide, by decide⟩
 
 
 
